@@ -26,6 +26,7 @@ EXTENDS BebopWire
 NL == "\n"
 SB == "~"     \* soft break: nothing/space, a line break, or a blank line
 SL == "^"     \* soft line: nothing/space or a single line break (after attributes and block comments)
+ST == "#"     \* soft top-level break: between definitions - like SB, but a layout may keep the next definition on the same line
 SA == "%"     \* soft attribute break: nothing/space, a line break, or an EMPTY line between an attribute and what it annotates
 
 NoDoc == <<>>
@@ -57,8 +58,11 @@ DepTokens(dep, bare) == IF dep = "" THEN <<>>
 TagTokens(tags) == FlattenSeq([i \in 1..Len(tags) |-> << NL, "//[tag(" \o tags[i].text \o ")]", NL >>])
 TrailTokens(f) == IF f.trail = "" THEN <<>> ELSE << "//" \o f.trail, NL >>
 
+\* the deprecation attribute may stand above the documentation and tag lines ("attrfirst") or below them
+AttrFirst(x) == "attrfirst" \in DOMAIN x /\ x.attrfirst
 FieldTokens(f, isMsg, asp) ==
-  << SB >> \o DocTokens(f.doc) \o TagTokens(f.tags) \o DepTokens(f.dep, f.doc = NoDoc /\ f.tags = <<>>)
+  << SB >> \o (IF AttrFirst(f) THEN DepTokens(f.dep, FALSE) \o DocTokens(f.doc) \o TagTokens(f.tags)
+               ELSE DocTokens(f.doc) \o TagTokens(f.tags) \o DepTokens(f.dep, f.doc = NoDoc /\ f.tags = <<>>))
   \o (IF isMsg THEN << IF "idxlit" \in DOMAIN f THEN f.idxlit ELSE ToString(f.idx), "->" >> ELSE <<>>)
   \o TypeTokens(f.t, asp) \o << f.name, ";" >> \o TrailTokens(f)
 
@@ -75,23 +79,27 @@ DefTokens(d) ==
     [] d.k = "union" ->
          << "union", d.name, "{" >>
          \o FlattenSeq([i \in 1..Len(d.branches) |->
-               << SB >> \o DocTokens(d.branches[i].doc) \o DepTokens(d.branches[i].dep, d.branches[i].doc = NoDoc)
-               \o << ToString(d.branches[i].idx), "->" >> \o DefTokens(d.branches[i].def) \o << NL >>])
+               << SB >> \o (IF AttrFirst(d.branches[i]) THEN DepTokens(d.branches[i].dep, FALSE) \o DocTokens(d.branches[i].doc)
+                            ELSE DocTokens(d.branches[i].doc) \o DepTokens(d.branches[i].dep, d.branches[i].doc = NoDoc))
+               \o << ToString(d.branches[i].idx), "->" >> \o DefTokens(d.branches[i].def) \o << SL >>])
          \o << SB, "}" >>
     [] d.k = "enum" ->
          << "enum", d.name >> \o (IF d.base = "" THEN <<>> ELSE << ":", d.base >>) \o << "{" >>
          \o FlattenSeq([i \in 1..Len(d.members) |->
-               << SB >> \o DocTokens(d.members[i].doc) \o DepTokens(d.members[i].dep, d.members[i].doc = NoDoc)
+               << SB >> \o (IF AttrFirst(d.members[i]) THEN DepTokens(d.members[i].dep, FALSE) \o DocTokens(d.members[i].doc)
+                            ELSE DocTokens(d.members[i].doc) \o DepTokens(d.members[i].dep, d.members[i].doc = NoDoc))
                \o << d.members[i].name, "=" >> \o d.members[i].lit \o << ";" >>])
          \o << SB, "}" >>
     [] d.k = "const" -> << "const", d.t, d.name, "=", d.lit, ";" >>
     [] d.k = "import" -> << "import", IF "lit" \in DOMAIN d THEN d.lit ELSE Quote(d.path) >>
 
 ItemTokens(d) ==
-  << SB >> \o (IF d.k = "import" THEN <<>> ELSE DocTokens(d.doc))
-  \o (IF d.k \in {"struct", "message", "union"} THEN OpTokens(d.op, d.doc = NoDoc) ELSE <<>>)
-  \o (IF d.k = "enum" /\ d.flags THEN << "[", "flags", "]", IF d.doc = NoDoc THEN SA ELSE SL >> ELSE <<>>)
-  \o DefTokens(d) \o << NL >>
+  LET doc == IF d.k = "import" THEN <<>> ELSE DocTokens(d.doc)
+      attrs(bare) == (IF d.k \in {"struct", "message", "union"} THEN OpTokens(d.op, bare) ELSE <<>>)
+                     \o (IF d.k = "enum" /\ d.flags THEN << "[", "flags", "]", IF bare THEN SA ELSE SL >> ELSE <<>>)
+  IN << ST >> \o (IF AttrFirst(d) THEN attrs(FALSE) \o doc ELSE doc \o attrs(d.k # "import" /\ d.doc = NoDoc))
+     \* a record or enum definition ends with its brace; an import or const ends its line
+     \o DefTokens(d) \o (IF d.k \in {"import", "const"} THEN << NL >> ELSE <<>>)
 
 Tokens(items) == FlattenSeq([i \in 1..Len(items) |-> ItemTokens(items[i])])
 
